@@ -145,11 +145,18 @@ impl PlFold for Flattener {
                     kind @ (TransformKind::Join { .. } | TransformKind::Append(_)) => {
                         let input = self.fold_expr(*t.input)?;
 
-                        // the joined or appended pipeline has its own order, which is neither
+                        // the joined or appended pipeline has its own order, partition and
+                        // window (and its sorts are its own transforms), which are neither
                         // inherited from this pipeline nor passed on to it
                         let sort = std::mem::take(&mut self.sort);
+                        let partition = self.partition.take();
+                        let window = std::mem::take(&mut self.window);
+                        let sort_undone = std::mem::take(&mut self.sort_undone);
                         let kind = fold_transform_kind(self, kind)?;
                         self.sort = sort;
+                        self.partition = partition;
+                        self.window = window;
+                        self.sort_undone = sort_undone;
 
                         (input, kind)
                     }
